@@ -412,7 +412,8 @@ def gen_term(rng, depth, funcs_n=3, vars_p=0.0, dict_p=0.0, fixed_arity=None):
     if r < 0.38:
         return ["lst", [gen_term(rng, depth - 1, funcs_n, vars_p, dict_p, fixed_arity) for _ in range(rng.randint(0, 3))]]
     f = rng.randint(0 if rng.random() < 0.08 else 1, funcs_n)
-    n = fixed_arity[f] if fixed_arity and f in fixed_arity else rng.randint(0, 3)
+    n = fixed_arity[f] if fixed_arity and f in fixed_arity else (
+        rng.randint(0, 3) if rng.random() < 0.92 else rng.randint(4, 6))
     return ["app", f, [gen_term(rng, depth - 1, funcs_n, vars_p, dict_p, fixed_arity) for _ in range(n)]]
 
 
@@ -480,7 +481,7 @@ def generate(ctx):
     # random rule sets; terms: random / instances of a rule / perturbed instances
     for _ in range(ctx.n(1200, 15000)):
         fixed = {1: rng.randint(1, 2), 2: rng.randint(1, 3), 3: rng.randint(0, 2)} if rng.random() < 0.35 else None
-        rules = [gen_rule(rng, fixed) for _ in range(rng.randint(1, 5))]
+        rules = [gen_rule(rng, fixed) for _ in range(rng.randint(1, 5) if rng.random() < 0.9 else rng.randint(6, 12))]
         if rng.random() < 0.3 and len(rules) > 1:
             # near-duplicate rules: same lhs shape with a variable renamed / repeated
             base = rng.choice(rules)
@@ -489,7 +490,7 @@ def generate(ctx):
         q = rng.random()
         base = rng.choice(rules)
         if q < 0.25:
-            term = gen_term(rng, 3, fixed_arity=fixed)
+            term = gen_term(rng, 3 if rng.random() < 0.8 else 5, fixed_arity=fixed)
         elif q < 0.7:
             term = instantiate(rng, base["lhs"], base["vars"])
         else:
